@@ -878,6 +878,15 @@ func (e *Emitter) emitHelperFunctions(calledFunctions map[ir.FunctionHandle]bool
 		savedLocalVarStructTypes := e.localVarStructTypes
 		savedLocalVarArrayTypes := e.localVarArrayTypes
 		savedLoopStack := e.loopStack
+		// The local-variable promotion tables are keyed by local index of the
+		// function being emitted. Helpers are emitted before the entry point
+		// initialises them, so give each helper its own (emitLocalVars writes
+		// to them and panicked on the nil maps).
+		savedLocalConstVecArrays := e.localConstVecArrays
+		savedZeroStoreLocals := e.zeroStoreLocals
+		savedInitOnlyLocals := e.initOnlyLocals
+		savedSingleStoreLocals := e.singleStoreLocals
+		savedOutputPromotedLocals := e.outputPromotedLocals
 
 		e.mainFn = dxilFn
 		e.exprValues = make(map[ir.ExpressionHandle]int)
@@ -886,6 +895,11 @@ func (e *Emitter) emitHelperFunctions(calledFunctions map[ir.FunctionHandle]bool
 		e.localVarComponentPtrs = make(map[uint32][]int)
 		e.localVarStructTypes = make(map[uint32]*module.Type)
 		e.localVarArrayTypes = make(map[uint32]*module.Type)
+		e.localConstVecArrays = make(map[uint32][][]float32)
+		e.zeroStoreLocals = make(map[uint32]ir.TypeHandle)
+		e.initOnlyLocals = make(map[uint32]ir.ExpressionHandle)
+		e.singleStoreLocals = make(map[uint32]ir.ExpressionHandle)
+		e.outputPromotedLocals = make(map[uint32]bool)
 		e.loopStack = nil
 		e.emittingHelperFunction = true
 		e.helperReturnComps = retNumComps
@@ -968,6 +982,11 @@ func (e *Emitter) emitHelperFunctions(calledFunctions map[ir.FunctionHandle]bool
 		e.localVarStructTypes = savedLocalVarStructTypes
 		e.localVarArrayTypes = savedLocalVarArrayTypes
 		e.loopStack = savedLoopStack
+		e.localConstVecArrays = savedLocalConstVecArrays
+		e.zeroStoreLocals = savedZeroStoreLocals
+		e.initOnlyLocals = savedInitOnlyLocals
+		e.singleStoreLocals = savedSingleStoreLocals
+		e.outputPromotedLocals = savedOutputPromotedLocals
 		e.globalVarAllocas = savedGlobalVarAllocas
 		e.globalVarAllocaTypes = savedGlobalVarAllocaTypes
 		e.intConsts = savedIntConsts
